@@ -391,7 +391,7 @@ def _const_prefix(t: ast.AST):
     return None
 
 
-def rule_scope(ctx: Ctx):
+def rule_scope(ctx: Ctx, rule: str = "C02.scope"):
     """C02.scope: event-named callbacks carry the is_same_event condition; executors filter on it."""
     rep, k = ctx.rep, ctx.k
     fn = ctx.fn("Transition._setup")
@@ -416,26 +416,26 @@ def rule_scope(ctx: Ctx):
                 per_event = [v for v in fvs if isinstance(v, ast.Subscript) and xshow(v.value, p.events) in
                              ("self._events", "list(self._events)", "tuple(self._events)", "self.events", "list(self.events)", "tuple(self.events)")]
                 if not per_event:
-                    rep.unrecognised("C02.scope", e.loc(), f"formatted convention name {show(name)} not built from an event of self._events")
+                    rep.unrecognised(rule, e.loc(), f"formatted convention name {show(name)} not built from an event of self._events")
                 n_scoped += 1
                 want = f"{xshow(per_event[0], p.events)}.is_same_event"
                 got = xshow(cond, p.events) if cond is not None else None
-                rep.check(got == want, "C02.scope", e.loc(),
+                rep.check(got == want, rule, e.loc(),
                           "event-named convention callback is scoped to its own event (cond=<event>.is_same_event)",
                           fn.key, norm_stmt(e.node), name=show(name), cond=got, expected=want)
             else:
                 n_generic += 1
-                rep.check(cond is None or (isinstance(cond, ast.Constant) and cond.value is None), "C02.scope", e.loc(),
+                rep.check(cond is None or (isinstance(cond, ast.Constant) and cond.value is None), rule, e.loc(),
                           "generic convention callback carries no event condition", fn.key, norm_stmt(e.node), name=show(name))
-    rep.floor("C02.scope", "event-scoped registrations", n_scoped, 3)
-    rep.floor("C02.scope", "generic registrations", n_generic, 3)
+    rep.floor(rule, "event-scoped registrations", n_scoped, 3)
+    rep.floor(rule, "generic registrations", n_generic, 3)
     # is_same_event is an equality between the event itself and the `event` keyword
     ise = ctx.fn("Event.is_same_event")
     for p in ctx.paths(ise):
         v = p.value
         ok = (p.kind == "return" and isinstance(v, ast.Compare) and len(v.ops) == 1 and isinstance(v.ops[0], ast.Eq)
               and {show(v.left), show(v.comparators[0])} == {"self", "event"})
-        rep.check(ok, "C02.scope", ise.loc(), "is_same_event compares the whole event with the triggering `event`",
+        rep.check(ok, rule, ise.loc(), "is_same_event compares the whole event with the triggering `event`",
                   ise.key, f"return {show(v)}")
     # executors filter on callback.condition
     from ..shapes import executor_collect
@@ -444,10 +444,10 @@ def rule_scope(ctx: Ctx):
         ex = ctx.fn(f"CallbacksExecutor.{name}")
         shapes = executor_collect(ctx, ex)
         if not shapes:
-            rep.unrecognised("C02.scope", ex.loc(), f"CallbacksExecutor.{name}: callback invocation shape not recognised")
+            rep.unrecognised(rule, ex.loc(), f"CallbacksExecutor.{name}: callback invocation shape not recognised")
         for c in shapes:
             ok = ("ELEM.condition(*args, **kwargs)", True) in c.filters and all(pol for _, pol in c.filters)
-            rep.check(ok, "C02.scope", ex.loc(), f"CallbacksExecutor.{name} runs only callbacks whose condition holds", ex.key,
+            rep.check(ok, rule, ex.loc(), f"CallbacksExecutor.{name} runs only callbacks whose condition holds", ex.key,
                       f"{c.form}: value={c.value} filters={c.filters}")
     # executor.add takes the condition from spec.cond
     add = ctx.fn("CallbacksExecutor.add")
@@ -465,10 +465,10 @@ def rule_scope(ctx: Ctx):
                 if pol and ((pol[-1] and "is not None" in show([b for b in p.events[: e.idx] if b.kind == "branch"][-1].term))
                             or (not pol[-1] and "is None" in show([b for b in p.events[: e.idx] if b.kind == "branch"][-1].term)
                                 and "is not None" not in show([b for b in p.events[: e.idx] if b.kind == "branch"][-1].term))):
-                    rep.check(got == "spec.cond", "C02.scope", e.loc(), "wrapper condition is the spec's own condition when it has one",
+                    rep.check(got == "spec.cond", rule, e.loc(), "wrapper condition is the spec's own condition when it has one",
                               add.key, norm_stmt(e.node), got=got)
                 elif not pol:
-                    rep.check(got is not None and "spec.cond" in got, "C02.scope", e.loc(),
+                    rep.check(got is not None and "spec.cond" in got, rule, e.loc(),
                               "wrapper condition derives from spec.cond", add.key, norm_stmt(e.node), got=got)
     if not found:
         raise AnalysisError("anchor lost: CallbackWrapper construction in CallbacksExecutor.add")
